@@ -468,7 +468,7 @@ func plist(ps []peer.ID) string {
 
 var optNorm = cmpx.Norm{DropAllocs: true}
 
-const rule = "case = file tree (0-2 levels, files of size 0, 1, chunk-1, chunk, chunk+1, 3 chunks + r, 7 chunks, names incl. hidden, unicode, spaces; a single file, a single directory or several entries with wrap) x chunker (size-32/64/256, rabin-16-32-64) x layout x raw leaves x CID version x hash function x pin options x destinations (1-3 real libp2p hosts with a recording BlockPut, or local) x sharding with a shard size giving 1-6 shards (and a class with > 5984 links in one shard) x optional block-put failure at block k of destination d (once or from then on) or a transient failure of the put of a multi-chunk file's first chunk, or of the n-th shard node, on every destination; one case in six adds a destination nobody can reach x optional pin failure; oracle: delivered blocks closed under links from the root, every file reads back byte-identical through DagReader over delivered blocks only, root(sharded) = root(unsharded) = root of a reference importer built from go-unixfs primitives, pin log exactly as the statement says, failure of every destination for some block => error and no root/meta pin; non-trivial = >= 2 files with one larger than a chunk, or >= 2 shards, or a fault; distinct by rendering"
+const rule = "case = file tree (0-2 levels, files of size 0, 1, chunk-1, chunk, chunk+1, 3 chunks + r, 7 chunks, names incl. hidden, unicode, spaces; a single file, a single directory or several entries with wrap) x chunker (size-32/64/256, rabin-16-32-64) x layout x raw leaves x CID version x hash function x pin options x destinations (1-3 real libp2p hosts with a recording BlockPut, or local) x sharding with a shard size giving 1-6 shards (or smaller than a chunk) (and a class with > 5984 links in one shard) x optional block-put failure at block k of destination d (once or from then on) or a transient failure of the put of a multi-chunk file's first chunk, or of the n-th shard node, on every destination; one case in six adds a destination nobody can reach x optional pin failure; oracle: delivered blocks closed under links from the root, every file reads back byte-identical through DagReader over delivered blocks only, root(sharded) = root(unsharded) = root of a reference importer built from go-unixfs primitives, pin log exactly as the statement says, failure of every destination for some block => error and no root/meta pin; non-trivial = >= 2 files with one larger than a chunk, or >= 2 shards, or a fault; distinct by rendering"
 
 func TestAdd(t *testing.T) {
 	leg := ev.L("add", rule)
@@ -552,7 +552,9 @@ func TestAdd(t *testing.T) {
 			cluster.allocs = append(cluster.allocs, a)
 		}
 		if shard {
-			po.ShardSize = uint64(rapid.SampledFrom([]int{350, 400, 700, 700, 1500, 4000, 100000}).Draw(t, "shardsize"))
+			// (100 and 200 are smaller than some chunk sizes: a block that fits no
+			// shard must fail the add, it cannot be skipped)
+			po.ShardSize = uint64(rapid.SampledFrom([]int{100, 200, 350, 400, 700, 700, 1500, 4000, 100000}).Draw(t, "shardsize"))
 			if many {
 				po.ShardSize = 100 << 20
 			}
@@ -763,7 +765,12 @@ func TestAdd(t *testing.T) {
 			if hasRootPin {
 				t.Fatalf("the add failed (%v) but the root was pinned\ncase: %s", err, desc)
 			}
-			tooSmall := shard && uint64(maxBlock) >= po.ShardSize
+			// a block as large as the shard limit cannot be placed; with the
+			// tiny shard sizes this also happens to nodes the importer emits
+			// outside the final DAG (its working directory), which the
+			// reference import does not contain: the explicit error is taken
+			// at its word there
+			tooSmall := shard && (uint64(maxBlock) >= po.ShardSize || (po.ShardSize <= 200 && strings.Contains(err.Error(), "doesn't fit in empty shard")))
 			if !fault && !pinFails && !tooSmall {
 				t.Fatalf("no fault injected but the add failed: %v\ncase: %s", err, desc)
 			}
